@@ -204,7 +204,8 @@ def check_deprecated_options(
     project_root = _find_project_root(file_dir, project_root_cache)
 
     effective_deprecated = set(global_deprecated)
-    if project_root is not None and project_root != abs_idf_path:
+    # the IDF root is no user project, however IDF_PATH names it (a symbolic link to the checkout is common)
+    if project_root is not None and os.path.realpath(project_root) != os.path.realpath(abs_idf_path):
         if project_root not in local_deprecated:
             local_deprecated[project_root] = _build_local_deprecated(project_root, project_root_cache)
         effective_deprecated |= local_deprecated[project_root]
